@@ -5,6 +5,7 @@ import (
 	"fmt"
 	"strings"
 	"sync"
+	"sync/atomic"
 	"time"
 
 	res "github.com/jirenius/go-res"
@@ -170,4 +171,76 @@ func c15StalledLink(c *core.Ctx, stall time.Duration) {
 	if strings.Join(got, ",") != "req:a=1,nil" {
 		c.Violation("C15/stalled-link:callback-calls", fmt.Sprintf("callback calls %v, want [req:a=1 nil]", got), desc)
 	}
+}
+
+// c15FreshSubjects: query events are sent from sixteen resources of sixteen groups at the
+// same time, round after round. Every query event announces a subject no other query event
+// of the run has announced.
+func c15FreshSubjects(c *core.Ctx, rounds int) {
+	rigInstall()
+	const nres = 16
+	var nils int64
+	rg := newRig("svc", func(s *res.Service) {
+		s.SetQueryEventDuration(5 * time.Millisecond)
+		s.SetWorkerCount(nres)
+		s.Handle("fs.$id", res.GetCollection(func(r res.CollectionRequest) { r.NotFound() }))
+	})
+	rg.C.NoGoID = true
+	if err := rg.start(); err != nil {
+		c.Inconclusive("start: " + err.Error())
+		return
+	}
+	defer rg.stop()
+	seen := map[string]string{}
+	total := 0
+	for round := 0; round < rounds; round++ {
+		pos := rg.C.Len()
+		want := atomic.LoadInt64(&nils) + nres*8
+		start := make(chan struct{})
+		var wg sync.WaitGroup
+		for i := 0; i < nres; i++ {
+			wg.Add(1)
+			go func(i int) {
+				defer wg.Done()
+				<-start
+				for k := 0; k < 8; k++ {
+					rg.S.With(fmt.Sprintf("svc.fs.%d", i), func(r res.Resource) {
+						r.QueryEvent(func(qr res.QueryRequest) {
+							if qr == nil {
+								atomic.AddInt64(&nils, 1)
+							}
+						})
+					})
+				}
+			}(i)
+		}
+		close(start)
+		wg.Wait()
+		for t := 0; t < 4000 && atomic.LoadInt64(&nils) < want; t++ {
+			time.Sleep(time.Millisecond)
+		}
+		if atomic.LoadInt64(&nils) < want {
+			c.Inconclusive("fresh-subjects: query events did not end")
+			return
+		}
+		for _, m := range rg.C.Since(pos) {
+			if !strings.HasPrefix(m.Subject, "event.svc.fs.") || !strings.HasSuffix(m.Subject, ".query") {
+				continue
+			}
+			var qe struct {
+				Subject string `json:"subject"`
+			}
+			json.Unmarshal(m.Data, &qe)
+			total++
+			c.Eval(1)
+			if first, dup := seen[qe.Subject]; dup || qe.Subject == "" {
+				c.Violation("C15/subject-not-fresh", fmt.Sprintf("the query event on %s announces the subject %q, which the query event on %s announced before (%d query events so far, sent from %d groups at the same time)", m.Subject, qe.Subject, first, total, nres),
+					map[string]interface{}{"subject": qe.Subject, "first": first, "second": m.Subject, "query_events": total})
+				return
+			}
+			seen[qe.Subject] = m.Subject
+		}
+	}
+	c.Obs("query_event_subjects_compared", int64(total))
+	c.Distinct(fmt.Sprintf("fresh-subjects/%d", rounds))
 }
